@@ -364,6 +364,10 @@ def read_headers(sock: socket.socket) -> tuple:
             raise WebSocketException("Invalid header: not valid UTF-8")
         if not line:
             break
+        if any((c < " " and c != "\t") or c == "\x7f" for c in line):
+            # no control character is legal in a header; a value kept from
+            # here (cookie, redirect target) must not carry one into a request
+            raise WebSocketException("Invalid header: control character")
         trace(line)
         if status is None:
             status_info = line.split(" ", 2)
